@@ -182,6 +182,9 @@ func (fr *frame) applyCall(cc *ssa.CallCommon, st *bstate, site ssa.Instruction,
 		return v
 	}
 	fr.lockHooks(cc, args, st, true)
+	for _, a := range args {
+		f.publish(a)
+	}
 	var spec *FuncSpec
 	var pnames []string
 	var callee *ssa.Function
@@ -901,17 +904,13 @@ func (fr *frame) runDefers(st *bstate) {
 // goroutine may have changed them) — done after the extern contract applied.
 func (fr *frame) lockHooks(cc *ssa.CallCommon, args []Val, st *bstate, before bool) {
 	f := fr.f
-	if before {
-		return
-	}
 	fn := cc.StaticCallee()
 	if fn == nil || fn.Pkg == nil || fn.Pkg.Pkg.Path() != "sync" {
 		return
 	}
-	if fn.Name() != "Lock" && fn.Name() != "RLock" {
-		return
-	}
-	if len(cc.Args) == 0 {
+	acquire := fn.Name() == "Lock" || fn.Name() == "RLock"
+	release := fn.Name() == "Unlock" || fn.Name() == "RUnlock"
+	if !acquire && !release || len(cc.Args) == 0 {
 		return
 	}
 	fa, ok := cc.Args[0].(*ssa.FieldAddr)
@@ -926,6 +925,60 @@ func (fr *frame) lockHooks(cc *ssa.CallCommon, args []Val, st *bstate, before bo
 	stt := T.Underlying().(*types.Struct)
 	lockName := stt.Field(fa.Field).Name()
 	base := fr.val(fa.X)
+	if before {
+		if release && !f.dry {
+			// monitor invariants are re-established before the lock is released
+			for _, li := range ts.LockInvs {
+				if li.Lock != lockName || !f.e.active(li.C.Tags) || len(li.C.Tags) == 0 && f.e.curProp != "" {
+					continue
+				}
+				env := f.newEnv(ts.Pkg, st.heap, fr.oldHeap, map[string]Val{"self": base}, nil)
+				v, err := env.evalBool(li.C.E)
+				if err != nil {
+					f.fail("%s: lockinv: %v", li.C.Line, err)
+					continue
+				}
+				if o := f.oblige(st, fmt.Sprintf("%s#lock-invariant:%s", fnShortName(fr.fn), clauseLabel(li.C)), "lock-invariant", li.C.Tags, v, li.C.Src, li.C.Line); o != nil {
+					o.clause = li.C
+				}
+			}
+		}
+		return
+	}
+	// channels kept in the fields this lock guards: when they have closers, their
+	// open/closed state is only stable while the lock is held
+	for _, g := range ts.Guarded {
+		if g.Lock != lockName {
+			continue
+		}
+		for _, fldName := range g.Fields {
+			for i := 0; i < stt.NumFields(); i++ {
+				if stt.Field(i).Name() != fldName {
+					continue
+				}
+				ct := chanTypeIn(stt.Field(i).Type())
+				if ct == nil {
+					continue
+				}
+				ci := f.e.closers()
+				if len(ci.byField[ts.Pkg+"."+ts.Name+"."+fldName]) == 0 && len(ci.unknown[typeKey(ct.Elem())]) == 0 {
+					continue
+				}
+				key := f.ghostKey(chanClosedGhost(ct), sortBool, true, sortInt)
+				before := f.hs.read(st.heap, key)
+				st.heap = f.hs.havocKeys(st.heap, map[string]bool{key: true})
+				// channels made by this function and not yet handed to anyone keep their state
+				for _, lc := range f.localChans {
+					if !lc.published && chanClosedGhost(lc.t) == chanClosedGhost(ct) {
+						f.assume(st, eq(app("select", f.hs.read(st.heap, key), lc.ref), app("select", before, lc.ref)), "a channel made here and not yet published is not closed by anyone else")
+					}
+				}
+			}
+		}
+	}
+	if release {
+		return
+	}
 	for _, g := range ts.Guarded {
 		if g.Lock != lockName {
 			continue
@@ -990,6 +1043,18 @@ func (fr *frame) lockHooks(cc *ssa.CallCommon, args []Val, st *bstate, before bo
 			continue
 		}
 		f.assume(st, v, "type invariant after lock: "+inv.Src)
+	}
+	for _, li := range ts.LockInvs {
+		if li.Lock != lockName {
+			continue
+		}
+		env := f.newEnv(ts.Pkg, st.heap, fr.oldHeap, map[string]Val{"self": base}, nil)
+		v, err := env.evalBool(li.C.E)
+		if err != nil {
+			f.fail("%s: lockinv: %v", li.C.Line, err)
+			continue
+		}
+		f.assume(st, v, "monitor invariant after acquiring "+lockName+": "+li.C.Src)
 	}
 }
 
@@ -1076,6 +1141,14 @@ func (fr *frame) checkGuardedValue(v ssa.Value, st *bstate, write bool, pos toke
 
 func (fr *frame) noteGo(x *ssa.Go, st *bstate) {
 	f := fr.f
+	for _, a := range x.Call.Args {
+		f.publish(fr.val(a))
+	}
+	if mc, ok := x.Call.Value.(*ssa.MakeClosure); ok {
+		for _, b := range mc.Bindings {
+			f.publish(fr.val(b))
+		}
+	}
 	var callee *ssa.Function
 	switch v := x.Call.Value.(type) {
 	case *ssa.Function:
@@ -1121,8 +1194,87 @@ func (fr *frame) noteGo(x *ssa.Go, st *bstate) {
 		f.oblige(st, fmt.Sprintf("%s#go:%s:requires:%s", fnShortName(fr.fn), shortCallee(callee.String()), clauseLabel(r)), "call-requires", r.Tags, v, r.Src, r.Line)
 	}
 }
-func (fr *frame) noteSelect(x *ssa.Select, st *bstate) {}
-func (fr *frame) noteRecv(x *ssa.UnOp, st *bstate)     {}
+// Sweep kind "cancel": every wait on a channel can be ended from outside. A blocking
+// select must have a case on the Done() channel of the function's context parameter
+// (when it has one), or else on some context's Done() or a timer; a bare blocking
+// receive or send has no such case. These obligations are structural: their goal is
+// the constant true or false, decided from the select's cases.
+func isDoneCall(v ssa.Value) (ssa.Value, bool) {
+	c, ok := v.(*ssa.Call)
+	if !ok || !c.Call.IsInvoke() || c.Call.Method.Name() != "Done" {
+		return nil, false
+	}
+	return c.Call.Value, true
+}
+
+func isTimerChan(v ssa.Value) bool {
+	c, ok := v.(*ssa.Call)
+	if !ok {
+		return false
+	}
+	if cf := c.Call.StaticCallee(); cf != nil && cf.Pkg != nil && cf.Pkg.Pkg.Path() == "time" && (cf.Name() == "After" || cf.Name() == "Tick") {
+		return true
+	}
+	return false
+}
+
+func (fr *frame) ctxParam() *ssa.Parameter {
+	root := fr.fn
+	for _, p := range root.Params {
+		if n, ok := p.Type().(*types.Named); ok && n.Obj().Pkg() != nil && n.Obj().Pkg().Path() == "context" && n.Obj().Name() == "Context" {
+			return p
+		}
+	}
+	return nil
+}
+
+func (fr *frame) noteSelect(x *ssa.Select, st *bstate) {
+	f := fr.f
+	if !f.sweep["cancel"] || !x.Blocking {
+		return
+	}
+	cp := fr.ctxParam()
+	onParam, onAny := false, false
+	for _, s := range x.States {
+		if s.Dir != types.RecvOnly {
+			continue
+		}
+		if cv, ok := isDoneCall(s.Chan); ok {
+			onAny = true
+			if cp != nil && cv == ssa.Value(cp) {
+				onParam = true
+			}
+		} else if isTimerChan(s.Chan) {
+			onAny = true
+		}
+	}
+	goal, why := "true", "a blocking select has a case that ends the wait when the caller's context ends (or, without a context parameter, a context or timer case)"
+	if cp != nil && !onParam || cp == nil && !onAny {
+		goal = "false"
+	}
+	f.oblige(st, fmt.Sprintf("%s#wait-can-be-cancelled:select", fnShortName(fr.fn)), "safety", f.sweepTags, goal, why, posStr(f.e.fset, x.Pos()))
+}
+
+func (fr *frame) noteRecv(x *ssa.UnOp, st *bstate) {
+	f := fr.f
+	if !f.sweep["cancel"] {
+		return
+	}
+	if _, ok := isDoneCall(x.X); ok || isTimerChan(x.X) {
+		return // waiting for a context or a timer is itself bounded from outside
+	}
+	f.oblige(st, fmt.Sprintf("%s#wait-can-be-cancelled:receive:%s", fnShortName(fr.fn), valueLabel(x.X)), "safety", f.sweepTags, "false",
+		"a bare channel receive blocks with no way to end the wait", posStr(f.e.fset, x.Pos()))
+}
+
+func (fr *frame) noteSend(x *ssa.Send, st *bstate) {
+	f := fr.f
+	if !f.sweep["cancel"] {
+		return
+	}
+	f.oblige(st, fmt.Sprintf("%s#wait-can-be-cancelled:send:%s", fnShortName(fr.fn), valueLabel(x.Chan)), "safety", f.sweepTags, "false",
+		"a bare channel send blocks with no way to end the wait", posStr(f.e.fset, x.Pos()))
+}
 
 // ---------------------------------------------------------------------------
 // type invariants at function boundaries
@@ -1841,4 +1993,79 @@ func (fr *frame) siteOrdinal(callee string, site ssa.Instruction) int {
 		}
 	}
 	return 0
+}
+
+// ---------------------------------------------------------------------------
+// transient map entries (type clause "transient f"): an entry that a function
+// stores in map field f is no longer in the map when that function returns.
+
+type transientIns struct {
+	reach, m, k, dk, label, pos string
+	tags                      []string
+	addr                      Val // address of the map field
+	mt                        types.Type
+}
+
+func (fr *frame) noteTransient(x *ssa.MapUpdate, st *bstate, m, k, dk string) {
+	f := fr.f
+	if f.dry {
+		return
+	}
+	u, ok := x.Map.(*ssa.UnOp)
+	if !ok || u.Op != token.MUL {
+		return
+	}
+	fa, ok := u.X.(*ssa.FieldAddr)
+	if !ok {
+		return
+	}
+	T := fa.X.Type().Underlying().(*types.Pointer).Elem()
+	ts := f.e.typeSpecOf(T)
+	if ts == nil {
+		return
+	}
+	fname := T.Underlying().(*types.Struct).Field(fa.Field).Name()
+	for _, td := range ts.Transient {
+		if !f.e.active(td.Tags) || len(td.Tags) == 0 && f.e.curProp != "" {
+			continue
+		}
+		for _, n := range td.Fields {
+			if n == fname {
+				f.transients = append(f.transients, transientIns{reach: st.reach, m: m, k: k, dk: dk, label: fname, pos: posStr(f.e.fset, x.Pos()), tags: td.Tags, addr: fr.val(fa), mt: x.Map.Type()})
+			}
+		}
+	}
+}
+
+func (fr *frame) checkTransients(st *bstate) {
+	f := fr.f
+	if f.dry || !fr.top {
+		return
+	}
+	for _, t := range f.transients {
+		dom := f.hs.read(st.heap, t.dk)
+		cur := f.load(st.heap, t.addr, t.mt) // the map the field holds now (it may have been replaced meanwhile)
+		f.oblige(st, fmt.Sprintf("%s#transient-entry-released:%s", fnShortName(fr.fn), t.label), "transient", t.tags,
+			implies(t.reach, not(app("select", app("select", dom, cur.Tm), t.k))),
+			"the entry stored in "+t.label+" is removed again on every return path", t.pos)
+	}
+}
+
+// local channels: made by the function under analysis; "published" once the value
+// has been stored somewhere or passed on.
+type localChan struct {
+	ref       string
+	t         types.Type
+	published bool
+}
+
+func (f *FnCtx) publish(v Val) {
+	if v.K != KRef {
+		return
+	}
+	for _, lc := range f.localChans {
+		if lc.ref == v.Tm {
+			lc.published = true
+		}
+	}
 }
